@@ -200,12 +200,32 @@ def fileindex(u: Unit):
         if not idx_exprs:
             idx_exprs = [pos[2]]
     P = "parameter_mode.create_params(dim_names=dim_names)"        # the parameter array (locals resolved)
-    inj = bool(idx_exprs) and all(f"np.arange({P}.size).reshape({P}.shape)" in e and f"dims={P}.dims" in e and e.endswith(".chunk(1)") for e in idx_exprs)
-    u.static("fileindex.injective", inj, fn.qualname,
-             f"file indices = arange(size).reshape(shape) on the dims of the parameter array, one chunk per cell: {idx_exprs}",
-             replay=FILEINDEX_REPLAY)
-    u.static("fileindex.passed_per_chunk", len(pos) >= 3 and pos[0] == "_run_pipelines_tuple_to_array" and pos[1] == P + ".chunk(1)", fn.qualname,
-             f"apply_ufunc(task, parameters chunked one cell per task, file indices): {pos[:3]}", replay=ONE_TASK_REPLAY)
+    # "one cell per task": `.chunk(1)`, or a mapping that gives EVERY dimension of the parameter array the chunk size 1; any other chunking
+    # expression is not decided on its text (undecided: the native scenarios -- files per run, a failing run -- decide)
+    def one_cell(e):
+        t = e.replace(" ", "")
+        Pn = P.replace(" ", "")
+        if t.endswith(".chunk(1)"):
+            return t[:-len(".chunk(1)")], True
+        for form in ("{d:1fordin%s.dims}" % Pn, "dict.fromkeys(%s.dims,1)" % Pn, "{dim:1fordimin%s.dims}" % Pn):
+            if t.endswith(".chunk(" + form + ")"):
+                return t[:-len(".chunk(" + form + ")")], True
+        i = t.rfind(".chunk(")
+        return (t[:i], None) if i >= 0 else (t, False)
+    parts = [one_cell(e) for e in idx_exprs]
+    structure = bool(idx_exprs) and all(f"np.arange({P}.size).reshape({P}.shape)".replace(" ", "") in b and f"dims={P}.dims".replace(" ", "") in b for b, _ in parts)
+    if structure and any(c is None for _, c in parts):
+        u.undecide("fileindex.injective", fn.qualname, f"the file-index array is chunked by an expression that is not recognised as one cell per task: {idx_exprs}")
+    else:
+        u.static("fileindex.injective", structure and all(c is True for _, c in parts), fn.qualname,
+                 f"file indices = arange(size).reshape(shape) on the dims of the parameter array, one chunk per cell: {idx_exprs}",
+                 replay=FILEINDEX_REPLAY)
+    pb, pc = one_cell(pos[1]) if len(pos) >= 3 else ("", False)
+    if len(pos) >= 3 and pos[0] == "_run_pipelines_tuple_to_array" and pb == P.replace(" ", "") and pc is None:
+        u.undecide("fileindex.passed_per_chunk", fn.qualname, f"the parameter array is chunked by an expression that is not recognised as one cell per task: {pos[1]}")
+    else:
+        u.static("fileindex.passed_per_chunk", len(pos) >= 3 and pos[0] == "_run_pipelines_tuple_to_array" and pb == P.replace(" ", "") and pc is True, fn.qualname,
+                 f"apply_ufunc(task, parameters chunked one cell per task, file indices): {pos[:3]}", replay=ONE_TASK_REPLAY)
     kd = DU.dict_arg(fn.node, next((k.value for k in cs[0].keywords if k.arg == "kwargs"), None)) if len(cs) == 1 else None
     want = {"dimension_names": "dim_names", "processor": "processor", "outputs": "outputs", "readout": "readout", "pipeline_seed": "pipeline_seed"}
     u.static("task.shared_arguments_forwarded", kd is not None and all(kd.get(k) == v for k, v in want.items()), fn.qualname, f"kwargs of apply_ufunc: {kd}", replay=SEEDED_DASK_REPLAY)
@@ -391,4 +411,4 @@ def bfe_values(u: Unit):
         u.cover(f"bfe.values.cover[chunk {chunk}]", ps, lambda p: p.kind == "return")
 
 
-STANDIN = dict(globals().get("STANDIN", {}), **{r"bfe\.values": BFE_REPLAY})
+STANDIN = dict(globals().get("STANDIN", {}), **{r"bfe\.values": BFE_REPLAY, r"fileindex\.passed_per_chunk": ONE_TASK_REPLAY, r"fileindex\.injective": FILEINDEX_REPLAY})
